@@ -244,44 +244,51 @@ structure EmitState where
   block : List Nat            -- `current_block`
   blockAddr : Int             -- `current_block_addr`
   writes : List (Int × List Nat)   -- `writer.write_block` calls, in order
-  trace : List TraceRec
+  own : List (Int × List Nat)      -- ghost: the `write_block` calls that carry the program's own bytes
+  trace : List TraceRec            -- ghost
   deriving Inhabited
+
+/-- one iteration of the loop of `Program.emit` -/
+def emitStep (env : Env) (n : Node) (st : EmitState) : Except Err EmitState :=
+  match emitNode env n st.r with
+  | .error e => .error e
+  | .ok (r1, bs) =>
+    let rec0 : TraceRec := ⟨st.r.reloc.logical, st.blockAddr + st.block.length, bs⟩
+    let step : Except Err EmitState :=
+      if bs.isEmpty then .ok { st with r := r1, trace := st.trace ++ [rec0] }
+      else
+        match addrAdd r1.reloc bs.length with
+        | .error e => .error e
+        | .ok a' =>
+          .ok { st with r := { r1 with pc := r1.pc + bs.length, reloc := a' },
+                        block := st.block ++ bs, trace := st.trace ++ [rec0] }
+    match step with
+    | .error e => .error e
+    | .ok st1 =>
+      let st2 :=
+        if n.isCodePos then
+          if st1.block.isEmpty then { st1 with blockAddr := st1.r.pc, block := [] }
+          else { st1 with writes := st1.writes ++ [(st1.blockAddr, st1.block)],
+                          own := st1.own ++ [(st1.blockAddr, st1.block)], blockAddr := st1.r.pc, block := [] }
+        else st1
+      match n with
+      | .includeIps blocks => .ok { st2 with writes := st2.writes ++ blocks }
+      | _ => .ok st2
 
 /-- the loop of `Program.emit` -/
 def emitLoop (env : Env) : List Node → EmitState → Except Err EmitState
   | [], st => .ok st
   | n :: ns, st =>
-    match emitNode env n st.r with
+    match emitStep env n st with
     | .error e => .error e
-    | .ok (r1, bs) =>
-      let rec0 : TraceRec := ⟨st.r.reloc.logical, st.blockAddr + st.block.length, bs⟩
-      let step : Except Err EmitState :=
-        if bs.isEmpty then .ok { st with r := r1, trace := st.trace ++ [rec0] }
-        else
-          match addrAdd r1.reloc bs.length with
-          | .error e => .error e
-          | .ok a' =>
-            .ok { st with r := { r1 with pc := r1.pc + bs.length, reloc := a' },
-                          block := st.block ++ bs, trace := st.trace ++ [rec0] }
-      match step with
-      | .error e => .error e
-      | .ok st1 =>
-        let st2 :=
-          if n.isCodePos then
-            let w := if st1.block.isEmpty then st1.writes else st1.writes ++ [(st1.blockAddr, st1.block)]
-            { st1 with writes := w, blockAddr := st1.r.pc, block := [] }
-          else st1
-        let st3 :=
-          match n with
-          | .includeIps blocks => { st2 with writes := st2.writes ++ blocks }
-          | _ => st2
-        emitLoop env ns st3
+    | .ok st' => emitLoop env ns st'
 
 /-- `Program.emit` -/
 def emitAll (env : Env) (nodes : List Node) (r : Resolver) : Except Err EmitState :=
-  match emitLoop env nodes ⟨r, [], r.pc, [], []⟩ with
+  match emitLoop env nodes ⟨r, [], r.pc, [], [], []⟩ with
   | .error e => .error e
   | .ok st =>
-    .ok (if st.block.isEmpty then st else { st with writes := st.writes ++ [(st.blockAddr, st.block)], block := [] })
+    .ok (if st.block.isEmpty then st
+         else { st with writes := st.writes ++ [(st.blockAddr, st.block)], own := st.own ++ [(st.blockAddr, st.block)], block := [] })
 
 end A816
